@@ -835,7 +835,7 @@ func runHistories(r *core.Run, kinds []*wkind) {
 		states[i].states = 1
 		r.States(1)
 	}
-	bounds := map[string]int{}
+	depthDone := map[string]int{}
 	complete := true
 	for d := 1; d <= maxDepth; d++ {
 		for _, st := range states {
@@ -852,10 +852,10 @@ func runHistories(r *core.Run, kinds []*wkind) {
 				continue
 			}
 			st.depth = d
-			bounds[st.wk.name] = d
+			depthDone[st.wk.name] = d
 			if len(st.frontier) == 0 {
 				st.done = true // closed: every reachable state was expanded
-				bounds[st.wk.name] = 99
+				depthDone[st.wk.name] = 99
 			}
 		}
 	}
@@ -863,14 +863,15 @@ func runHistories(r *core.Run, kinds []*wkind) {
 	var stateCounts = map[string]int64{}
 	var evalCounts = map[string]int64{}
 	for _, st := range states {
-		bc[st.wk.name] = bounds[st.wk.name]
+		bc[st.wk.name] = depthDone[st.wk.name]
 		stateCounts[st.wk.name] = st.states
 		evalCounts[st.wk.name] = st.evals
-		if bounds[st.wk.name] < r.Pick(st.wk.depthQ, st.wk.depthT) && bounds[st.wk.name] != 99 {
+		if depthDone[st.wk.name] < r.Pick(st.wk.depthQ, st.wk.depthT) && depthDone[st.wk.name] != 99 {
 			complete = false
 		}
 	}
 	r.Set("hist_depth_completed", bc)
+	bounds["history_depth_per_wrapper_kind"] = bc
 	r.Set("hist_states_per_kind", stateCounts)
 	r.Set("hist_histories_per_kind", evalCounts)
 	if !complete {
